@@ -145,7 +145,7 @@ func (w *c17World) step(i int, faulty bool) bool {
 			}
 		}
 		// every pod bound into a group is given that group's reservation pod's device index
-		if pod, ok := w.st.Pods[podKey]; ok && pod.Spec.NodeName != "" {
+		if pod, ok := w.st.Pods[podKey]; ok && pod.Spec.NodeName != "" && (pod.Status.Phase == v1.PodPending || pod.Status.Phase == v1.PodRunning) {
 			rp := w.reservations(w.grp[k])
 			vr.Assert(len(rp) == 1, "C17.bound-pod-has-its-groups-reservation-pod")
 			cm := w.st.ConfigMaps["ns/"+vs.Name("p", k)+"-abcdefg-shared-gpu-0-evar"]
@@ -161,11 +161,11 @@ func (w *c17World) step(i int, faulty bool) bool {
 		}
 	case 2: // pod k completes; the pod controller sees the update
 		pod, ok := w.st.Pods[podKey]
-		if !ok || pod.Status.Phase != v1.PodRunning {
-			return false
+		if !ok || pod.Spec.NodeName == "" || (pod.Status.Phase != v1.PodRunning && pod.Status.Phase != v1.PodPending) {
+			return false // only a bound pod that is still pending (e.g. rejected by the kubelet) or running can complete
 		}
 		old := pod.DeepCopy()
-		pod.Status.Phase = v1.PodSucceeded
+		pod.Status.Phase = []v1.PodPhase{v1.PodSucceeded, v1.PodFailed}[vr.Choose(vs.Name("endsAs", i), 2)]
 		w.podr.eventHandlers().UpdateFunc(ctx, event.UpdateEvent{ObjectOld: old, ObjectNew: pod.DeepCopy()}, c17Queue{})
 	case 3: // pod k is deleted; the pod controller sees the deletion
 		pod, ok := w.st.Pods[podKey]
